@@ -123,7 +123,10 @@ func resolveGuarded(s *jsonschema.Schema, opts *jsonschema.ResolveOptions) (*jso
 	plain.ValidateDefaults = false
 	rs, err := s.Resolve(&plain)
 	if err != nil {
-		return nil, err
+		// a schema that Resolve refuses is refused with ValidateDefaults as well (no default is
+		// ever validated, so the proviso about reference cycles does not come into play): the
+		// call has to return there too
+		return s.Resolve(opts)
 	}
 	if inPlaceCycle != nil && hooksOn() {
 		if inPlaceCycle(rs) {
